@@ -767,6 +767,14 @@ class Machine:
             r = self.extra_summary(self, st, locs, name, args)
             if r is not None:
                 return r
+        if base in ('checked_sub', 'saturating_sub') and len(args) == 2 and a0[0] == 'n' and args[1][0] == 'n':
+            outs = []
+            for sg, s2 in self.sign(st, a0, args[1]):
+                if sg >= 0:
+                    outs.append(((some(self.sub(a0, args[1])) if base == 'checked_sub' else self.sub(a0, args[1])), s2))
+                else:
+                    outs.append(((NONE if base == 'checked_sub' else A0), s2))
+            return outs
         if base == 'as_bytes' and isinstance(a0, tuple) and a0 and a0[0] == 'str':
             return [(a0, st)]
         if (name.endswith('<impl [T]>::len') or name.endswith('<impl [u8]>::len')) and a0[0] == 'str':
